@@ -803,7 +803,7 @@ static void exec_hash(Run &r, int t, int i, const J &op) {
 
   // C09 patterns for this phrase
   PatSet pat;
-  bool scan_secret = (r.o_c09 && !c.phrase.null && c.phrase.b.size() >= 8 && op.i("scan", 1));
+  bool scan_secret = (r.o_c09 && !c.phrase.null && c.phrase.b.size() >= 6 && op.i("scan", 1));   // (6-7 bytes: searched as a whole, see PatSet::build)
   if (scan_secret) { pat.build(c.phrase.b); r.cur_pat = &pat; r.cur_pat_task = t; }
 
   std::vector<int> faults; for (auto &f : op.at("faults").a) faults.push_back((int)f.n);
